@@ -83,6 +83,24 @@ CLAIMED["C20"] = ("property-based testing (Hypothesis alloc/free histories on dy
                   "alignment, disjointness, content stability and no double hand-out checked after every op; held on everything explored.",
                   "Trusts the oracle in harness/m_mempool.c, ASan, Hypothesis.", "DESIGN.md par. 3 C20")
 
+CLAIMED["C15"] = ("property-based testing: Hypothesis-generated seeds, prefix histories, probe sequences and thread plans; "
+                  "oracle = independent Python reference of the documented generator (splitmix64 bootstrap, 20 discards, "
+                  "sfc64) and the metamorphic relation 'bits after seeding do not depend on history or thread'",
+                  "Search, not proof: every raw output after a seeding is compared bit-exactly with the reference; probe "
+                  "sequences are compared across prefix histories, fresh/reused threads and up to 16 concurrent threads "
+                  "(schedules provoked, not controlled; a suspected race is replayed up to 20x); held on everything explored.",
+                  "Trusts pbt/props/_random_common.py (reference generator), harness/m_random.c; non-raw samplers are "
+                  "only compared with themselves.", "DESIGN.md par. 3 C15")
+CLAIMED["C16"] = ("property-based testing + statistical testing: Hypothesis-generated parameter vectors biased to documented "
+                  "boundaries; oracle = support predicate on every draw (masked and trapping FP environment, draw-count "
+                  "hook against non-termination, forced boundary draws) and goodness of fit against scipy (exact KS, "
+                  "chi-square on probability-integral-transform bins, moments) with a two-seed confirmation rule",
+                  "Search, not proof: support is checked on every generated draw; fit is a statistical test with a stated "
+                  "family-wise false-alarm bound and stated power (distortions below ~5e-4 in CDF are below thorough "
+                  "power); held on everything explored.",
+                  "Trusts scipy/numpy distributions, pbt/props/_random_common.py, harness/m_random.c and the guarded draw "
+                  "hook in cmb_random.c.", "DESIGN.md par. 3 C16")
+
 NOT_YET = "check not built yet in this session (work in progress; see DESIGN.md §3 for the planned check)"
 
 
